@@ -22,25 +22,59 @@ def fam_libs(src):
         f.readline(); m = re.match(r'//\s*LIBS:\s*(.*)', f.readline())
     return m.group(1).split() if m else []
 
+_tree_key = {}
+def tree_key():
+    """content hash of every file under <REPO>/include (the replay binaries depend on nothing else of the tree)"""
+    root = os.path.join(REPO, 'include')
+    if root not in _tree_key:
+        h = hashlib.sha256()
+        for dp, dn, fn in sorted(os.walk(root)):
+            dn.sort()
+            for f in sorted(fn):
+                q = os.path.join(dp, f)
+                h.update(os.path.relpath(q, root).encode()); h.update(b'\0')
+                with open(q, 'rb') as fh: h.update(hashlib.sha256(fh.read()).digest())
+        _tree_key[root] = h.hexdigest()
+    return _tree_key[root]
+
 def build_and_run(fam, wd, args=(), timeout=900):
     """returns list of (config, rc, stdout) ; builds in parallel"""
     src, cfgs = fam_sources(fam)
     if not src: return None
-    bdir = os.path.join(wd, 'replay_' + fam); os.makedirs(bdir, exist_ok=True)
+    # the binary is a function of (family source, common.hpp, every file under <REPO>/include, flags): it is rebuilt whenever any of these
+    # changes and reused otherwise (content-addressed directory under build/, empty after a fresh restore)
+    hk = hashlib.sha256()
+    for q in (src, os.path.join(RDIR, 'common.hpp')):
+        with open(q, 'rb') as fh: hk.update(fh.read())
+    hk.update(tree_key().encode())
+    if os.path.realpath(REPO) == '/repo':
+        croot = os.path.join(VERIF, 'build', 'replay_cache')
+        bdir = os.path.join(croot, hk.hexdigest()[:20]); os.makedirs(bdir, exist_ok=True)
+        os.utime(bdir, None)
+        try:      # keep the cache small: only the most recently used 40 (family x tree) directories survive
+            ds = sorted((os.path.join(croot, d) for d in os.listdir(croot)), key=os.path.getmtime)
+            for d in ds[:-40]: shutil.rmtree(d, ignore_errors=True)
+        except OSError: pass
+    else:         # scratch trees (mutants, self-test, seeds): build in the run's working directory, removed with it
+        bdir = os.path.join(wd, 'replay_' + fam); os.makedirs(bdir, exist_ok=True)
     procs = []
     for c in cfgs:
         exe = os.path.join(bdir, fam + '_' + c)
+        if os.path.exists(exe): procs.append((c, exe, None, None)); continue
         std = 'c++20' if 'puml' in fam or 'cxx20' in c else 'c++17'
-        cmd = ['g++', '-std=' + std, '-O0', '-w', '-I', os.path.join(REPO, 'include'), '-I', RDIR, '-DCFG_' + c + '=1', '-DCFG_NAME="' + c + '"', src, '-o', exe] + fam_libs(src)
-        procs.append((c, exe, subprocess.Popen(cmd, stdout=subprocess.PIPE, stderr=subprocess.STDOUT)))
+        tmp = exe + '.tmp%d' % os.getpid()
+        cmd = ['g++', '-std=' + std, '-O0', '-w', '-I', os.path.join(REPO, 'include'), '-I', RDIR, '-DCFG_' + c + '=1', '-DCFG_NAME="' + c + '"', src, '-o', tmp] + fam_libs(src)
+        procs.append((c, exe, subprocess.Popen(cmd, stdout=subprocess.PIPE, stderr=subprocess.STDOUT), tmp))
     out = []
-    for c, exe, p in procs:
-        try:
-            o, _ = p.communicate(timeout=timeout)
-        except subprocess.TimeoutExpired:
-            p.kill(); out.append((c, -9, 'compile timeout')); continue
-        if p.returncode != 0:
-            out.append((c, -1, 'COMPILE-ERROR ' + o.decode('utf-8', 'replace')[-1500:])); continue
+    for c, exe, p, tmp in procs:
+        if p is not None:
+            try:
+                o, _ = p.communicate(timeout=timeout)
+            except subprocess.TimeoutExpired:
+                p.kill(); out.append((c, -9, 'compile timeout')); continue
+            if p.returncode != 0:
+                out.append((c, -1, 'COMPILE-ERROR ' + o.decode('utf-8', 'replace')[-1500:])); continue
+            os.replace(tmp, exe)
         try:
             r = subprocess.run([exe] + list(args), stdout=subprocess.PIPE, stderr=subprocess.STDOUT, timeout=timeout)
             out.append((c, r.returncode, r.stdout.decode('utf-8', 'replace')))
@@ -65,8 +99,11 @@ def parse(outs):
 
 def run_families(prop, fams, wd, kf, seed):
     res = dict(families=[], scenarios=0, violations=[], known=[], undecided=[])
+    from concurrent.futures import ThreadPoolExecutor
+    with ThreadPoolExecutor(max_workers=int(os.environ.get('VERIF_FAMILY_JOBS', '3'))) as ex:
+        built = dict(zip(fams, ex.map(lambda f: build_and_run(f, wd), fams)))
     for fam in fams:
-        outs = build_and_run(fam, wd)
+        outs = built[fam]
         if outs is None: continue
         res['families'].append(fam)
         scn, bad = parse(outs)
